@@ -5,7 +5,9 @@ a random syntactic shape.  Oracle: the independent NumPy evaluator working on th
 ``ScalarExpression.__call__``, ``get_function('numpy'|'numba')`` with separate and single
 arguments, ``TensorExpression``, ``<Field>.from_expression`` on every grid class,
 ``differentiate``/``derivatives`` (against forward-mode derivatives of the AST, cross-checked with
-finite differences of the oracle), ``parse_number`` and ``evaluate``.
+finite differences of the oracle), ``parse_number`` and ``evaluate``.  Aimed families: the point-wise
+fall-back of ``ScalarField.from_expression`` (expressions that cannot be evaluated with arrays) and
+repeated ``get_function`` requests on one expression object with different per-request ``user_funcs``.
 
 Tolerance: ``|got - want| <= TOLK * eps * E`` where ``E`` is the evaluator's running error scale
 (sum of the magnitudes of the partial terms weighted with the sensitivities of the enclosing
@@ -60,6 +62,11 @@ ASSUMPTIONS = [
     "user functions)",
     "a sympy.simplify call that does not return within 6 s or ends in a RecursionError is skipped "
     "(counted, not judged)",
+    "point-wise fall-back of ScalarField.from_expression (user function with a python `if`, Piecewise, sign): "
+    "the threshold lies in the middle of a gap (> 1e-7 relative) between the values the argument takes on the "
+    "grid; no array constants and no `cartesian[i]` (the cell-by-cell evaluation rejects them with a ValueError)",
+    "repeated get_function requests: the per-request user function f is not also given at construction "
+    "(precedence between the two is not documented); arguments in [0.2, 1.5]",
 ]
 
 TOLK = 64.0  # numpy route
